@@ -278,7 +278,7 @@ def cases(tier, seed=0):
         out.append(Harmonic(l=l))
     if tier == "quick":
         for l in range(lmax + 1, 11):
-            out.append(HarmonicRef(l=l))
+            out.append(HarmonicRef(l=l, heavy=True))
     # every permutation of the Cartesian order for l <= 1 (quick) / l <= 2 (thorough: 720), label order fixed
     for l in (1,) if tier == "quick" else (1, 2):
         n = len(G.comps(l))
